@@ -86,6 +86,8 @@ pub struct PlainParams<'w, 's>
     rs: ReactResMut<'w, RS>,
 }
 
+impl<'w, 's> PlainParams<'w, 's> { pub fn h_mut(&mut self) -> &mut H { &mut self.h } }
+
 //-------------------------------------------------------------------------------------------------------------------
 // Resolved triggers and a dynamic trigger bundle
 
@@ -225,6 +227,9 @@ pub struct H
     pub tokens: Vec<Option<RevokeToken>>,
     /// `On`/`Once` op for this instance already executed.
     pub created: Vec<bool>,
+    /// harness-side run counter per instance: selects the script, so a system whose own state is lost cannot loop forever
+    pub runs: Vec<u32>,
+    pub total_runs: u32,
     pub sigs: Vec<Vec<AutoDespawnSignal>>,
     pub sig_ent: Vec<Option<Entity>>,
     /// Every entity the harness created or was told about.
@@ -262,6 +267,13 @@ impl H
         let v: Vec<RTrig> = trigs.iter().map(|t| self.resolve(t)).collect();
         DynBundle::new(&v)
     }
+    pub fn next_run(&mut self, inst: Inst) -> u32
+    {
+        self.total_runs += 1;
+        if self.total_runs > 4000 { panic!("runaway: more than 4000 system runs in one program"); }
+        self.runs[inst as usize] += 1;
+        self.runs[inst as usize]
+    }
     fn set_inst(&mut self, inst: Inst, sc: SystemCommand)
     {
         self.insts[inst as usize] = Some(sc);
@@ -290,10 +302,11 @@ pub fn plain_actor<Ret: MkRet>(inst: u8) -> impl FnMut(Readers, PlainParams, Loc
         let (s, held) = r.sample();
         log(Ev::Body { inst, n: *n, cap, s });
         drop(held);
+        let run = p.h.next_run(inst);
         let prog = p.h.prog.clone();
-        let ops = prog.insts[inst as usize].script(*n);
-        let err = interp(ops, inst, *n, &mut p);
-        log(Ev::BodyEnd { inst, n: *n, err });
+        let ops = prog.insts[inst as usize].script(run);
+        let err = interp(ops, inst, run, &mut p);
+        log(Ev::BodyEnd { inst, n: run, err });
         Ret::mk(err)
     }
 }
@@ -320,14 +333,15 @@ pub fn ewr_actor<T: EntityWorldReactor<Local = u32>>(inst: u8)
         }
         else { None };
         log(Ev::EwrLocal { inst, src: src.to_bits(), val, src_alive });
+        let run = p.h.next_run(inst);
         let prog = p.h.prog.clone();
-        let ops = prog.insts[inst as usize].script(*n);
-        let err = interp(ops, inst, *n, &mut p);
-        log(Ev::BodyEnd { inst, n: *n, err });
+        let ops = prog.insts[inst as usize].script(run);
+        let err = interp(ops, inst, run, &mut p);
+        log(Ev::BodyEnd { inst, n: run, err });
     }
 }
 
-pub fn excl_actor(inst: u8) -> impl FnMut(&mut World, &mut SystemState<Readers<'static, 'static>>, Local<u32>) + Send + Sync + 'static
+pub fn excl_actor<Ret: MkRet>(inst: u8) -> impl FnMut(&mut World, &mut SystemState<Readers<'static, 'static>>, Local<u32>) -> Ret + Send + Sync + 'static
 {
     let mut cap = 0u32;
     let canary = Canary(inst);
@@ -339,33 +353,37 @@ pub fn excl_actor(inst: u8) -> impl FnMut(&mut World, &mut SystemState<Readers<'
         let (s, held) = { let mut r = st.get_mut(world); r.sample() };
         log(Ev::Body { inst, n: *n, cap, s });
         drop(held);
+        let run = world.resource_mut::<H>().next_run(inst);
         let prog = world.resource::<H>().prog.clone();
-        let ops = prog.insts[inst as usize].script(*n);
+        let ops = prog.insts[inst as usize].script(run);
         // immediate world operations first
         for (idx, op) in ops.iter().enumerate()
         {
             if let Op::Now(w) = op
             {
-                let u = uid(inst, *n, idx);
+                let u = uid(inst, run, idx);
                 log(Ev::Now(u));
                 exec_wop(world, w, u);
                 log(Ev::NowEnd(u));
             }
         }
         // then queue commands on the world's queue (applied after the body returns, behind the cleanup)
+        let mut err = false;
         world.resource_scope(|world: &mut World, mut h: Mut<H>|
         {
             let mut c = world.commands();
             for (idx, op) in ops.iter().enumerate()
             {
-                if matches!(op, Op::Now(_) | Op::ReturnErr) { continue; }
-                let u = uid(inst, *n, idx);
+                if matches!(op, Op::Now(_)) { continue; }
+                if matches!(op, Op::ReturnErr) { err = true; break; }
+                let u = uid(inst, run, idx);
                 c.queue(move |_: &mut World| log(Ev::Apply(u)));
                 let _ = interp_basic(op, u, &mut c, &mut h);
                 c.queue(move |_: &mut World| log(Ev::ApplyEnd(u)));
             }
         });
-        log(Ev::BodyEnd { inst, n: *n, err: false });
+        log(Ev::BodyEnd { inst, n: run, err });
+        Ret::mk(err)
     }
 }
 
@@ -376,7 +394,8 @@ fn spawn_actor_cmd(c: &mut Commands, inst: Inst, flavour: Flavour) -> SystemComm
         Flavour::Plain => c.spawn_system_command(plain_actor::<()>(inst)),
         Flavour::FallibleDrop => c.spawn_system_command(plain_actor::<DropErr>(inst)),
         Flavour::FallibleWarn => c.spawn_system_command(plain_actor::<WarnErr>(inst)),
-        Flavour::Exclusive => c.spawn_system_command(excl_actor(inst)),
+        Flavour::Exclusive => c.spawn_system_command(excl_actor::<()>(inst)),
+        Flavour::ExclusiveWarn => c.spawn_system_command(excl_actor::<WarnErr>(inst)),
     }
 }
 
@@ -453,14 +472,14 @@ fn interp_basic(op: &Op, u: u32, c: &mut Commands, h: &mut H) -> Option<bool>
                 match (mode, flavour)
                 {
                     (Mode::Persistent, Flavour::FallibleDrop) => { let sc = c.react().on_persistent(b, plain_actor::<DropErr>(i)); publish(c, sc); }
-                    (Mode::Persistent, Flavour::Exclusive) => { let sc = c.react().on_persistent(b, excl_actor(i)); publish(c, sc); }
+                    (Mode::Persistent, Flavour::Exclusive) => { let sc = c.react().on_persistent(b, excl_actor::<()>(i)); publish(c, sc); }
                     (Mode::Persistent, _) => { let sc = c.react().on_persistent(b, plain_actor::<()>(i)); publish(c, sc); }
                     (Mode::Revokable, Flavour::FallibleDrop) => { let t = c.react().on_revokable(b, plain_actor::<DropErr>(i)); publish(c, SystemCommand::from(t.clone())); h.tokens[i as usize] = Some(t); }
-                    (Mode::Revokable, Flavour::Exclusive) => { let t = c.react().on_revokable(b, excl_actor(i)); publish(c, SystemCommand::from(t.clone())); h.tokens[i as usize] = Some(t); }
+                    (Mode::Revokable, Flavour::Exclusive) => { let t = c.react().on_revokable(b, excl_actor::<()>(i)); publish(c, SystemCommand::from(t.clone())); h.tokens[i as usize] = Some(t); }
                     (Mode::Revokable, _) => { let t = c.react().on_revokable(b, plain_actor::<()>(i)); publish(c, SystemCommand::from(t.clone())); h.tokens[i as usize] = Some(t); }
                     // `on` returns nothing: the reactor's entity stays unknown to the harness
                     (Mode::Cleanup, Flavour::FallibleDrop) => { c.react().on(b, plain_actor::<DropErr>(i)); }
-                    (Mode::Cleanup, Flavour::Exclusive) => { c.react().on(b, excl_actor(i)); }
+                    (Mode::Cleanup, Flavour::Exclusive) => { c.react().on(b, excl_actor::<()>(i)); }
                     (Mode::Cleanup, _) => { c.react().on(b, plain_actor::<()>(i)); }
                 }
             }
@@ -928,6 +947,8 @@ fn run_inner(prog: &Arc<Program>)
         insts: vec![None; ninst],
         tokens: vec![None; ninst],
         created: vec![false; ninst],
+        runs: vec![0; ninst],
+        total_runs: 0,
         sigs: (0..4).map(|_| Vec::new()).collect(),
         sig_ent: vec![None; 4],
         known: Vec::new(),
